@@ -51,6 +51,7 @@ class FuncRun(ExprMixin, InstrMixin, CallMixin):
         self.facted = set()
         self.fnvals = {}
         self.closure_slots = {}
+        self.renamed_used = set()
         self.set_at_last = {}
         self.boxrefs = {}
         self.rangevis = {}
@@ -704,6 +705,12 @@ class FuncRun(ExprMixin, InstrMixin, CallMixin):
                         out.setdefault(fvname, (b.a, self.ty.elem(p['type'])))
         for g, (cid, sort) in self.ghost_cells.items():
             out[g] = (cid, None)
+        # a variable that was purely renamed since the contracts were written answers to its old name too
+        from .baseline import renames
+        for old_, new_ in renames(fn).items():
+            if old_ not in out and new_ in out:
+                out[old_] = out[new_]
+                self.renamed_used.add('%s: %s -> %s' % (fn['name'].rsplit('/', 1)[-1], old_, new_))
         return out
 
     def make_env(self, ctx, state, header=None):
@@ -712,6 +719,10 @@ class FuncRun(ExprMixin, InstrMixin, CallMixin):
             # inside an inlined closure: its parameters are visible by name
             for p in ctx['fn']['params']:
                 names[p['name']] = (ctx['params'][p['name']], p['type'])
+            from .baseline import renames
+            for old_, new_ in renames(ctx['fn']).items():
+                if old_ not in names and new_ in names:
+                    names[old_] = names[new_]
         cn = self.cellnames_for(ctx, header)
         return Env(names, state, self.entry_state, cn, self.pkg, prefer_cells=True)
 
